@@ -48,6 +48,7 @@ from harness.props import c09_oracle as orc
 from translate import leggauss as tr
 
 PROPS = 'C09/Props.v'
+STATS = {'flag_integrals_checked': 0, 'flag_inner_products_checked': 0, 'anisotropic_tp_cases': 0}
 EPS = orc.EPS
 QMAX = 13
 
@@ -197,6 +198,33 @@ def gen_cases(ctx):
         add({'kind': 'tp', 'spaces': spaces, 'stiffness': stiff, 'f': f,
              'geo': {'kind': 'unit_cube' if unit else 'identity'}})
         dist['dims'][d] = dist['dims'].get(d, 0) + 1
+    # anisotropic spaces: every direction has the SAME degree, number of dofs and end points but
+    # different knots (simple knots at different places / a repeated interior knot): entrywise
+    # comparison of all routes against the exact Kronecker matrix
+    def aniso_variants(p, m, nvar):
+        out = []
+        tries = 0
+        while len(out) < nvar and tries < 200:
+            tries += 1
+            style = rng.choice(['simple', 'repeated']) if (p >= 2 and m >= 2) else 'simple'
+            if style == 'simple':
+                pos = sorted(rng.sample(range(1, 8), m))
+                kv = [F(0)] * (p + 1) + [F(c, 8) for c in pos] + [F(1)] * (p + 1)
+            else:
+                mult = rng.randint(2, min(p, m))
+                pos = sorted(rng.sample(range(1, 8), m - mult + 1))
+                rep = rng.choice(pos)
+                kv = [F(0)] * (p + 1) + [F(c, 8) for c in pos for _ in range(mult if c == rep else 1)] + [F(1)] * (p + 1)
+            if kv not in out:
+                out.append(kv)
+        return out
+    aniso = [(3, 2, 2), (2, 3, 3)] + ([(3, 1, 2), (3, 2, 3), (2, 2, 2), (3, 3, 2), (2, 1, 3), (3, 2, 2)] if th else [])
+    for (d, p, m) in aniso:
+        kvsv = aniso_variants(p, m, d)
+        spaces = [spec(kv, p) for kv in kvsv]
+        f = [rand_poly(rng, rng.randint(0, 2)) for _ in range(d)]
+        add({'kind': 'tp', 'spaces': spaces, 'stiffness': True, 'f': f, 'geo': {'kind': 'unit_cube'}, 'aniso': True})
+        dist['dims']['aniso-d%d' % d] = dist['dims'].get('aniso-d%d' % d, 0) + 1
     # --- geometry maps -----------------------------------------------------------
     # fixed first case (the first ACA call of the driver process, so that rand() in fastasm.cc is
     # in its initial state): a sheared unit cube, uniform quadratic splines with 4 spans
@@ -205,6 +233,7 @@ def gen_cases(ctx):
     co = [[[[float(ix * Ash[r][0] + iy * Ash[r][1] + iz * Ash[r][2]) for r in range(3)]
             for ix in range(2)] for iy in range(2)] for iz in range(2)]
     add({'kind': 'geo', 'spaces': [spec(u4, 2)] * 3, 'which': 'para3', 'stiffness': True, 'fast': 1e-6,
+         'fpar': [[1, 2], [-1, 1], [2, -3]],
          'geo': {'kind': 'multilinear', 'coeffs': co, 'A': [[str(v) for v in row] for row in Ash], 'o': ['0', '0', '0']}})
     dist['geo']['sheared-cube-fixed'] = 1
     ngeo = 30 if th else 6
@@ -250,8 +279,12 @@ def gen_cases(ctx):
             g = {'kind': 'bspline_quarter_annulus'}
         else:
             g = {'kind': 'twisted_box'}
+        fpar = None
+        if which in ('quad', 'para3'):
+            # non-constant parametric data (degree 1 in every direction)
+            fpar = [[rng.randint(-3, 3), rng.choice([-3, -2, -1, 1, 2, 3])] for _ in range(d)]
         add({'kind': 'geo', 'spaces': spaces, 'geo': g, 'which': which, 'stiffness': which != 'para3' or True,
-             'fast': rng.choice([1e-6, 1e-8, 1e-10])})
+             'fast': rng.choice([1e-6, 1e-8, 1e-10]), 'fpar': fpar})
         dist['geo'][which] = dist['geo'].get(which, 0) + 1
     # --- low-rank assembler vs generic assembler, all orderings of mixed degrees -----
     # identity-like geometries (unit cube / axis-aligned scaling): every check of mass_fast is hard;
@@ -489,6 +522,8 @@ def nterms(case):
 
 def check_tp(case, r, bad):
     d = len(case['spaces'])
+    if case.get('aniso'):
+        STATS['anisotropic_tp_cases'] += 1
     N = 1
     for s in case['spaces']:
         N *= len(s['kv']) - s['p'] - 1
@@ -640,8 +675,66 @@ def check_geo(case, r, bad):
         # wrong Jacobian / missing abs / wrong weights, nothing finer
         if abs(int_one - 0.75 * math.pi) > 1e-2 * 0.75 * math.pi:
             bad.append(('geo-area:annulus', 'integrate(1) over the quarter annulus = %r, area %r' % (int_one, 0.75 * math.pi)))
+    if case.get('fpar') and 'int_par' in r:
+        check_flags(case, r, bad, npts, mp)
     # low-rank assembler: entrywise within 4*tol (relative to the largest entry), pattern
     bad[0:0] = compare_fast(r, case['fast'], which, known_class=True)
+
+
+def check_flags(case, r, bad, npts, mp):
+    """Both values of f_physical of integrate / inner_products with non-constant data on a
+    multilinear (non-identity) geometry against exact references: the parametric integrand
+    (f_physical=False, the documented default) is integrated as  int f(t) |det DG(t)| dt,
+    the physical one as  int f(G(t)) |det DG(t)| dt  (exact multivariate polynomial arithmetic)."""
+    d = len(case['spaces'])
+    which = case['which']
+    spaces = [kvF(s) for s in case['spaces']]
+    comps = orc.multilinear_map(case['geo']['coeffs'], d)
+    adet = orc.abs_det_poly(comps)
+    if adet is None:
+        return
+    zero = tuple([0] * d)
+    fpoly = {zero: F(1)}
+    for k, ck in enumerate(case['fpar']):
+        fk = {tuple(e if m == k else 0 for m in range(d)): F(c) for e, c in enumerate(ck) if c != 0}
+        fpoly = orc.mp_mul(fpoly, fk)
+    g_par = orc.mp_mul(fpoly, adet)
+    g_phys = orc.mp_mul(orc.mp_mul(comps[0], comps[1]), adet)
+    tolrel = (npts * 4 + 256) * EPS * (mp + 1) ** (2 * d) + 64 * d * orc.TABLE_DEFECT
+
+    def exact_ok(g, with_basis):
+        return all(orc.mp_degvar(g, k) + (spaces[k][1] if with_basis else 0) <= 2 * mp + 1 for k in range(d))
+
+    for name, g in (('int_par_default', g_par), ('int_par', g_par), ('int_phys_prod', g_phys)):
+        if not exact_ok(g, False):
+            continue
+        ex = orc.mp_int_unit(g)
+        got = fr(float.fromhex(r[name]))
+        STATS['flag_integrals_checked'] += 1
+        if abs(got - ex) > tolrel * orc.mp_l1(g):
+            flag = 'f_physical=True' if 'phys' in name else ('default f_physical' if 'default' in name else 'f_physical=False')
+            bad.append(('integrate-flag:%s:%s' % (name, which), 'integrate(kvs, f, geo=G) with %s = %r, exact %r (f %s on a %s geometry)'
+                        % (flag, float(got), float(ex), 'x0*x1' if 'phys' in name else 'prod_k fpar_k(t_k)', which)))
+    for name, g in (('inner_par_default', g_par), ('inner_par', g_par), ('inner_phys_prod', g_phys)):
+        if not exact_ok(g, True):
+            continue
+        ex = orc.exact_inner_mp(spaces, g)
+        STATS['flag_inner_products_checked'] += 1
+        v = np.load(r[name]).ravel()
+        if len(v) != len(ex):
+            bad.append(('inner-flag-shape:%s:%s' % (name, which), '%s has %d entries, expected %d' % (name, len(v), len(ex))))
+            continue
+        bnd = tolrel * orc.mp_l1(g)
+        for i in range(len(ex)):
+            if abs(fr(v[i]) - ex[i]) > bnd:
+                bad.append(('inner-products-flag:%s:%s' % (name, which), 'inner_products(kvs, f, geo=G) [%s] entry %d = %r, exact %r'
+                            % (name, i, v[i], float(ex[i]))))
+                break
+    # without geometry afterwards: the plain parametric integral
+    ex = orc.mp_int_unit(fpoly)
+    got = fr(float.fromhex(r['int_par_nogeo']))
+    if abs(got - ex) > tolrel * orc.mp_l1(fpoly):
+        bad.append(('integrate-nogeo:' + which, 'integrate(kvs, f) = %r, exact %r' % (float(got), float(ex))))
 
 
 def compare_fast(r, tol, label, known_class):
@@ -1013,6 +1106,7 @@ def run(ctx):
                        '(entries within 4 tol, stored pattern, sum = measure, K*1 = 0); one evaluation = one case')
     ctx.cov['input_distribution'] = dist
     ctx.cov['exhaustive'] = False
+    ctx.cov.update(STATS)
     for k, (c, r) in enumerate(zip(cases, results)):
         if c['kind'] in ('1d', 'asym') and k % 9 == 0:
             ctx.sample({kk: v for kk, v in replay_of(c).items() if kk not in ('kv', 'how')})
